@@ -38,6 +38,14 @@ func d1Spaces(r *Run, oracles []string, bias string) (closure []Spec, traj []Spe
 		{Name: "map-small-T256", Kind: "map-small", T: 256, Keys: K, Classes: mapCls, Oracles: oracles},
 		{Name: "map-nested-T256", Kind: "map-small", T: 256, Keys: 2, Extra: map[string]int{"kLim": 1}, Classes: mapNest, Oracles: oracles},
 	}
+	if bias == "kinds" {
+		// same-typed composite maps with three fields in one slab (compact encoding; each map has its own
+		// seed, hence its own field order relative to the shared key list)
+		closure = append(closure,
+			Spec{Name: "arr-compact-T256", Kind: "arr-small", T: 256, L: 3, Classes: []string{"Mc:t,u5,s10", "t"}, Oracles: oracles},
+			Spec{Name: "map-compact-T256", Kind: "map-small", T: 256, Keys: 3, Classes: []string{"Mc:t,u5,s10", "t"}, Oracles: oracles},
+		)
+	}
 	if r.Thorough() {
 		closure = append(closure,
 			Spec{Name: "arr-small-T512", Kind: "arr-small", T: 512, L: L, Classes: arrCls, Oracles: oracles},
@@ -151,7 +159,7 @@ func init() {
 	RegisterCheck(&CheckDef{ID: "C07", Level: "model_checking", Run: func(r *Run) {
 		r.Rule = "explicit-state BFS over array/map/nested spaces; every register produced by a commit after every transition is decoded and re-encoded (byte identity), its decoded content is compared element-by-element with the in-memory slab (except compact maps), and the three header flags are compared with the harness's own reading of the content"
 		r.Assumptions = d1Assumptions()
-		or := []string{"sem", "rt"}
+		or := []string{"sem", "rt", "reopen"}
 		cl, tr := d1Spaces(r, or, "kinds")
 		r.ExploreSpecs(cl)
 		r.ExploreSpecs(tr)
